@@ -8,5 +8,6 @@ CONSTANTS
   MaxWedged = 0
   MaxBurst = 2
   MaxHold = 0
+  MaxSick = 1
   Depth = 10
 CHECK_DEADLOCK FALSE
